@@ -248,7 +248,12 @@ func (f *frame) get(v ssa.Value) Val {
 	case *ssa.Global:
 		return PtrV{&Loc{Kind: LObj, Ref: e.global("glob."+c.Pkg.Pkg.Name()+"."+c.Name(), "Int"), T: c.Type().(*types.Pointer).Elem()}}
 	case *ssa.Function:
-		return ClosV{Fn: c, Ref: e.global("fn."+c.String(), "Int")}
+		ref := e.global("fn."+c.String(), "Int")
+		if !e.once["fn:"+ref] {
+			e.once["fn:"+ref] = true
+			e.assume(fmt.Sprintf("(> %s 0)", ref))
+		}
+		return ClosV{Fn: c, Ref: ref}
 	case *ssa.Builtin:
 		return Sc{"1"}
 	}
@@ -844,6 +849,10 @@ func (f *frame) step(b *ssa.BasicBlock, ins ssa.Instruction, pc string, h *Heap,
 	case *ssa.Alloc:
 		r := e.newRef(f.name(in) + "." + in.Comment)
 		l := &Loc{Kind: LObj, Ref: r, T: in.Type().(*types.Pointer).Elem()}
+		if tn := types.TypeString(l.T, nil); tn == "strings.Builder" || tn == "bytes.Buffer" {
+			arr := e.comp(h, "G.sb_len", "Int", false)
+			e.setGhost(h, "sb_len", arr, r, "0") // a new builder is empty
+		}
 		if _, isArr := under(l.T).(*types.Array); !isArr {
 			e.store(h, l, e.zero(l.T))
 		} else {
@@ -1636,11 +1645,14 @@ func (w *World) srcText(pos token.Pos, ins ssa.Instruction) string {
 	}
 	p := w.prog.Fset.Position(pos)
 	src := w.fileLines(p.Filename)
-	if p.Line-1 < len(src) {
+	if p.Line >= 1 && p.Line-1 < len(src) {
 		line := src[p.Line-1]
 		col := p.Column - 1
 		if col > len(line) {
 			col = len(line)
+		}
+		if col < 0 {
+			col = 0
 		}
 		// take the expression text around the position: from the start of the token run to end of line, trimmed
 		start := col
